@@ -62,7 +62,7 @@ def run(prop, replay=None):
         raise vlib.ToolError("no completed checkpoint exercised: vacuous")
     if prop == "C27":
         # the coordinator's protocol (ids, pending, ack matching, several checkpoints): CkptCoord.tla on the real CheckpointCoordinator
-        cbase = "CONSTANTS N = 3 Cap = %d MaxHist = %d MaxCkpt = %d\nINIT Init\nNEXT Next\n"
+        cbase = "CONSTANTS N = 3 Cap = %d MaxHist = %d MaxCkpt = %d RecordHist = TRUE\nINIT Init\nNEXT Next\n"
         r = need_ok(tlc_cfg("_cc.cfg", cbase % (1, 100, 3) + "VIEW StateView\nINVARIANT IdsFresh\nCONSTRAINT AckRoom\nCHECK_DEADLOCK FALSE\n", "CkptCoordMC", "ccmc", workers=4, timeout=900), "MC coordinator")
         v.add_tlc(r, "MC CkptCoord: completed checkpoint ids are fresh and increasing")
         r1 = tlc_cfg("_cc1.cfg", cbase % (1, 100, 2) + "VIEW StateView\nINVARIANT ConsistentCut\nCONSTRAINT AckRoom\nCHECK_DEADLOCK FALSE\n", "CkptCoordMC", "ccmc1", workers=4, timeout=900)
